@@ -33,7 +33,14 @@ const (
 	fakeRoot   = "/R" // stands for the project root when locations are compared
 )
 
-var pkgs = []string{"//", "//a", "//a/b"}
+var pkgs = []string{"//", "//a", "//a/b",
+	// other spellings of the same packages (what a command line or a REPL hands over): the result
+	// must be an error or the label resolved against the canonical spelling
+	"//a/", "//a//b", "///a", "//a/b/", "//a/./b", "//a/../b"}
+
+// canonPkg gives the canonical spelling of the packages above whose only irregularity is a
+// repeated or trailing separator ("" where the spelling has "." or ".." elements: no claim).
+var canonPkg = map[string]string{"//a/": "//a", "//a//b": "//a/b", "///a": "//a", "//a/b/": "//a/b"}
 
 // ---- label helpers ----------------------------------------------------------------------------
 
@@ -279,6 +286,11 @@ func checkString(r *vlib.Run, s string, lc *local) {
 		}
 		if scope && inScope(rl) {
 			checkLabel(r, rl, labelReplay{Part: "label", Input: s, Pkg: pkg}, lc)
+		}
+		if c := canonPkg[pkg]; c != "" {
+			if rc, cerr, cpv := safeRelativeTo(l, c); cpv == nil && cerr == nil && rc != nil && !eq(rc, rl) {
+				r.Violation("C12:relativeto-depends-on-package-spelling", fmt.Sprintf("Parse(%q).RelativeTo(%q) = %s but RelativeTo(%q) = %s", s, pkg, show(rl), c, show(rc)), labelReplay{Part: "label", Input: s, Pkg: pkg, Label: show(rl)})
+			}
 		}
 	}
 }
@@ -593,7 +605,7 @@ func main() {
 		}
 		lc := newLocal()
 		unitStrings(pathAlpha, plen, maxPath, u, func(p string) {
-			for _, pkg := range pkgs {
+			for _, pkg := range pkgs[:3] {
 				checkPath(r, pkg, p, lc)
 			}
 		})
@@ -606,7 +618,7 @@ func main() {
 	recordPaths(r)
 
 	wantParse := totalStrings(labelAlpha, maxLabel)
-	wantPaths := totalStrings(pathAlpha, maxPath) * int64(len(pkgs)) * 2
+	wantPaths := totalStrings(pathAlpha, maxPath) * int64(3) * 2
 	if !r.Expired() && (r.Get("parse_calls") != wantParse || r.Get("path_resolutions") != wantPaths) {
 		vlib.Fatalf("enumeration incomplete: %d/%d strings, %d/%d path resolutions", r.Get("parse_calls"), wantParse, r.Get("path_resolutions"), wantPaths)
 	}
